@@ -23,6 +23,9 @@ type AbsKey struct {
 
 type syncEnt struct{ k, v Value }
 
+// AbsParseOpt is the engine-native jwk.ParseOption.
+type AbsParseOpt struct{ ignoreParseError bool }
+
 // AbsSet is the engine-native abstract jwk.Set.
 type AbsSet struct{ keys []IfaceVal }
 
@@ -327,7 +330,30 @@ func (e *Engine) cryptoIntrinsic(fn *ssa.Function, full string, args []Value) (V
 		if e.parseResult == nil {
 			return nil, false
 		}
+		if e.parseBroken {
+			// an entry the library cannot parse fails the whole document unless
+			// the caller asked for such entries to be skipped
+			lenient := false
+			if len(args) > 1 {
+				for _, o := range variadic(args[1]) {
+					if oi, ok := o.(IfaceVal); ok {
+						if obj, ok := opaqueObj(oi); ok {
+							if po, ok := obj.(*AbsParseOpt); ok && po.ignoreParseError {
+								lenient = true
+							}
+						}
+					}
+				}
+			}
+			if !lenient {
+				return TupleVal{IfaceVal{}, e.newError(mkStr("jwk.Parse: failed to unmarshal JWK set"))}, true
+			}
+		}
 		return TupleVal{*e.parseResult, IfaceVal{}}, true
+	case "github.com/lestrrat-go/jwx/v2/jwk.WithIgnoreParseError":
+		slot := new(Value)
+		*slot = &AbsParseOpt{ignoreParseError: e.decide(args[0].(*Term))}
+		return IfaceVal{typ: e.sh.marks.opaque, val: PtrVal{slot}}, true
 	}
 	return e.sigIntrinsic(fn, full, args)
 }
@@ -367,6 +393,11 @@ func (e *Engine) harnessExtra(fn *ssa.Function, name string, args []Value) (Valu
 	case "vpKeySetFile":
 		v := Value(args[0])
 		e.parseResult = &v
+		return mkStr("vp://keyset"), true
+	case "vpKeySetFileBroken": // (set, at, kid): the file also holds an unparseable entry at index `at` (none when negative)
+		v := Value(args[0])
+		e.parseResult = &v
+		e.parseBroken = e.concretize(args[1].(*Term), -1, 8) >= 0
 		return mkStr("vp://keyset"), true
 	case "vpCleanup":
 		return nil, true
